@@ -128,7 +128,7 @@ def gen_ballots(d, nc, cands, maxlines, equal=False, bigmult=False, nseats=1):
     return ballots
 
 
-def election_core(d, size, equal=False, undeclared=False, withdrawn=True, min_cand=1, names='plain'):
+def election_core(d, size, equal=False, undeclared=False, withdrawn=True, min_cand=1, names='plain', chains=False):
     nc = max(min_cand, d.int(1, size['maxc']) if d.p(12) else d.int(min(3, size['maxc']), size['maxc']))
     cands = list(range(1, nc + 1))
     wd = []
@@ -138,6 +138,8 @@ def election_core(d, size, equal=False, undeclared=False, withdrawn=True, min_ca
             wd = wd[:nc - 1]
     el = [c for c in cands if c not in wd]
     ns = d.int(1, max(1, len(el) - 2)) if d.p(75) else d.int(1, len(el))
+    if chains and len(el) >= 4 and d.p(70):
+        ns = d.int(2, len(el) - 2)     # several winners with surpluses that pass through the same ballots
     und = []
     if undeclared and d.p(40):
         und = [c for c in cands if d.p(30)]
@@ -240,14 +242,31 @@ def rule_options(d, rule, stratum='S1', rational=True):
 @st.composite
 def election_cases(draw, tier='quick', rules=model.ALL_RULES, equal_for_meek=False,
                    undeclared_for_mpls=True, stratum='S1', withdrawn=True, rational=True,
-                   min_cand=1, default_options=False):
+                   min_cand=1, default_options=False, chains=False):
     d = D(draw)
     rule = d.choice(list(rules))
     size = SIZES[tier]
     case = election_core(d, size,
                          equal=equal_for_meek and rule in ('meek', 'warren') and d.p(50),
                          undeclared=undeclared_for_mpls and rule == 'mpls',
-                         withdrawn=withdrawn, min_cand=min_cand)
+                         withdrawn=withdrawn, min_cand=min_cand, chains=chains)
     case['rule'] = rule
     case['options'] = {} if default_options else rule_options(d, rule, stratum, rational)
     return case
+
+
+def scotland_prior_stage_case(d):
+    """a template whose exclusion tie is decided by an earlier stage, and where the earliest and the most
+    recent differing stage disagree: X < Y at stage 1, X > Y after Z1's exclusion, X == Y after Z2's."""
+    a = d.int(4, 9)
+    ids = d.perm(range(1, 7))
+    X, Y, Z1, Z2, B1, B2 = ids
+    k = d.int(1, 3)                      # size of the first-stage gap
+    ballots = [[a, [[X]]], [a + k, [[Y]]],
+               [2 * k, [[Z1], [X]]],
+               [k, [[Z2], [Y]]], [k + 2, [[Z2], [B1]]],
+               [a + 3 * k + 4, [[B1]]], [a + 3 * k + 4, [[B2]]]]
+    if d.p(50):
+        ballots = d.perm(ballots)
+    return dict(ncand=6, nseats=1, withdrawn=[], undeclared=[], tie=d.perm(range(1, 7)), ballots=ballots, title='T',
+                names=None, rule='scotland', options={})
